@@ -19,6 +19,21 @@ RULE = ("plan = frame (0..12 rows quick / 0..40 thorough) with 1..3 group column
 CASES = {"quick": 1500, "thorough": 4000}
 
 KEY_KINDS = ["f", "i", "b", "s", "s", "u", "d", "t", "td", "o", "oi", "ob"]
+HELPERS = ["all", "any", "count", "count_unique", "first", "last", "nth", "min", "max", "mode", "mean", "median", "quantile",
+           "std", "var", "sum"]
+
+
+def _helper_pair(hx):
+    """(shorthand helper for aggregate, lambda applying the same helper to the group's column)"""
+    f = getattr(di, hx["helper"])
+    a = dict(hx["args"])
+    pos = []
+    if hx["helper"] == "nth":
+        pos = [a.pop("index")]
+    if hx["helper"] == "quantile":
+        pos = [a.pop("q")]
+    col = hx["col"]
+    return f(col, *pos, **a), (lambda g: f(g[col], *pos, **a))
 
 
 @st.composite
@@ -37,7 +52,17 @@ def _plan(draw, max_rows):
         cols.append({"name": f"g{j}", "kind": kind, "vals": draw(gen.values(kind, n, mode=mode, na="none" if big else None))})
     cols.append({"name": "xi", "kind": "i", "vals": [draw(st.integers(-1000, 1000)) for _ in range(n)]})
     cols.append({"name": "xf", "kind": "f", "vals": [draw(st.sampled_from([gen.NAN, -3.0, -0.0, 0.0, 0.5, 1.0, 2.5, 1e6])) for _ in range(n)]})
-    return {"frame": {"n": n, "cols": cols}, "by": [f"g{j}" for j in draw(st.permutations(range(nk)))]}
+    h = draw(st.sampled_from(HELPERS))
+    hx = {"helper": h, "col": draw(st.sampled_from(["xi", "xf"])), "args": {}}
+    if h not in ("all", "any") and draw(st.booleans()):
+        hx["args"]["drop_na"] = draw(st.booleans())
+    if h == "nth":
+        hx["args"]["index"] = draw(st.integers(-3, 3))
+    if h == "quantile":
+        hx["args"]["q"] = draw(st.sampled_from([0, 0.25, 0.5, 0.9, 1]))
+    if h in ("std", "var") and draw(st.booleans()):
+        hx["args"]["ddof"] = draw(st.sampled_from([0, 1]))
+    return {"frame": {"n": n, "cols": cols}, "by": [f"g{j}" for j in draw(st.permutations(range(nk)))], "hx": hx}
 
 
 def strategy(tier):
@@ -146,6 +171,19 @@ def check(plan, ctx):
         a, b = build.cells(stat["me"]), build.cells(stat["ml"])
         if not all(build.same_cell(x, y, tol=(1e-9, 1e-12)) for x, y in zip(a, b)):
             raise Violation("aggregate: mean('xf') differs from lambda g: mean(g.xf)", helper=a, lam=b)
+
+    # ---- shorthand helper == lambda applying the helper to the group's column (every helper) ----
+    if n > 0 and "hx" in plan:
+        hx = plan["hx"]
+        short, lam = _helper_pair(hx)
+        both = ctx.call("aggregate(helper, lambda)", lambda: data.group_by(*by).aggregate(h=short, l=lam))
+        data._group_colnames = ()
+        a, b = build.cells(both["h"]), build.cells(both["l"])
+        ambiguous = hx["helper"] in ("count_unique", "mode") and hx["args"].get("drop_na") is not True and hx["col"] == "xf"
+        if not ambiguous and not all(build.same_cell(x, y, tol=(1e-9, 1e-12)) for x, y in zip(a, b)):
+            raise Violation("a shorthand helper differs from a lambda applying that helper to the group's column",
+                            helper=hx, shorthand=a, lam=b)
+        ctx.cls("helper_vs_lambda_" + hx["helper"])
 
     # ---- count ----
     cnt = ctx.call("count", lambda: data.count(*by))
